@@ -898,7 +898,7 @@ static void gen_huge(rng &r)
             }
         }
         // the witness of the finding, always present for the sizes that admit it
-        if (size > 2147483648ull)
+        if (size > 2147483648ull && 4294967296ull - (size - 2) + 1 <= size - 1)
         {
             P("set " + S(size - 2) + " " + S(size - 2));
             P(F + "mh " + S(4294967296ull - (size - 2) + 1));
